@@ -811,8 +811,8 @@ func bodyC32Tags(c *c32Tags, x *vkit.Ctx) {
 	}
 	tags := c32Map(c.Tags)
 	var in map[string]string = tags
-	if len(c.Tags) == 0 && c.Tags == nil {
-		in = nil
+	if len(c.Tags) == 0 && c.How%2 == 0 {
+		in = nil // "no tags" as a nil map; odd How: as an empty one
 	}
 	enc := a.Serf.VerifEncodeTags(in)
 	got := b.Serf.VerifDecodeTags(enc)
